@@ -170,9 +170,11 @@ func (c *counter) add(d int) {
 	c.mu.Unlock()
 }
 
-func bump(id int, c *counter, locals []int, wg *sync.WaitGroup) {
+func bump(id int, c *counter, locals []int, start chan bool, tokens chan int, wg *sync.WaitGroup) {
 	defer wg.Done()
-	mine := 0
+	<-start
+	t := <-tokens
+	mine := t - t
 	for i := 0; i < @K@; i++ {
 		c.add(id + @A@)
 		mine += id + @A@
@@ -183,10 +185,16 @@ func bump(id int, c *counter, locals []int, wg *sync.WaitGroup) {
 func main() {
 	c := &counter{}
 	locals := make([]int, @N@)
+	start := make(chan bool)
+	tokens := make(chan int, @BUF@)
 	var wg sync.WaitGroup
 	for id := 0; id < @N@; id++ {
 		wg.Add(1)
-		go bump(id, c, locals, &wg)
+		go bump(id, c, locals, start, tokens, &wg)
+	}
+	close(start)
+	for id := 0; id < @N@; id++ {
+		tokens <- id
 	}
 	wg.Wait()
 	fmt.Println(c.total)
@@ -205,7 +213,11 @@ import (
 func consume(ch chan int, mu *sync.Mutex, total, count *int, wg *sync.WaitGroup) {
 	defer wg.Done()
 	s, c := 0, 0
-	for v := range ch {
+	for {
+		v, ok := <-ch
+		if !ok {
+			break
+		}
 		s += v
 		c++
 	}
@@ -968,7 +980,7 @@ func runC08(args []string) error {
 	mainTpls := []int{tplPipeline, tplFanout, tplMutex, tplProdCons, tplSelMain, tplClosure, tplHostCall, tplMulti, tplSelSend}
 	perTpl, plainExtra, regionJobs := 5, 2, 4
 	if thorough {
-		perTpl, plainExtra, regionJobs = 36, 8, 36
+		perTpl, plainExtra, regionJobs = 72, 8, 48
 	}
 	mkParams := func(tpl, n int) c08params {
 		p := c08params{Tpl: tpl, N: n, K: 6 + r.intn(20), A: 2 + r.intn(40), B: r.intn(500), Buf: []int{0, 0, 1, 3}[r.intn(4)]}
